@@ -266,6 +266,15 @@ func (matrix *DenseReal64Matrix) T() Matrix {
   return matrix.MagicT()
 }
 func (matrix *DenseReal64Matrix) Tip() {
+  if matrix.transposed {
+    // the storage already holds the transposed matrix in row-major order
+    matrix.transposed = false
+    matrix.rows, matrix.cols = matrix.cols, matrix.rows
+    matrix.rowOffset, matrix.colOffset = matrix.colOffset, matrix.rowOffset
+    matrix.rowMax, matrix.colMax = matrix.colMax, matrix.rowMax
+    matrix.tmp1, matrix.tmp2 = matrix.tmp2, matrix.tmp1
+    return
+  }
   mn := len(matrix.values)
   visited := make([]bool, mn)
   k := 0
